@@ -105,7 +105,11 @@ async def check_state(st, idx, sd, acc):
     # all possible content evaluation results
     m, n = len(exp[0]), len(exp[2])
     if m + n >= 1 and m <= 4 and n <= 4:
-        cers = x.generate_possible_content_evaluation_results()
+        try:
+            cers = x.generate_possible_content_evaluation_results()
+        except Exception as e:  # noqa: BLE001 - total: the enumeration exists for every extract
+            acc.v(f"generate_possible_content_evaluation_results for rc {exp[0]} / fc {exp[2]} raised {type(e).__name__}: {str(e)[:160]}", case)
+            return
         acc.c("cer_sets")
         keyset = set()
         bad = None
@@ -219,7 +223,11 @@ def long_expressions(res, work, n):
                 rc, hint, fc, pkg, tm = real_lists(x)
                 ncers = -1
                 if len(rc) + len(fc) >= 1 and len(rc) <= 4 and len(fc) <= 4:
-                    ncers = len(x.generate_possible_content_evaluation_results())
+                    try:
+                        ncers = len(x.generate_possible_content_evaluation_results())
+                    except Exception as e:  # noqa: BLE001 - total
+                        res.violation(f"generate_possible_content_evaluation_results for the extract of {expr!r} raised {type(e).__name__}: {str(e)[:160]}", {"expr": expr})
+                        ncers = -2
                 if len(x.package_keys) != len(set(x.package_keys)) or len(x.time_condition_keys) != len(set(x.time_condition_keys)):
                     res.violation(f"extract of {expr!r} lists a package or time condition twice: {x.package_keys} {x.time_condition_keys}", {"expr": expr})
                 t = {"id": tid, "ops": ops, "rejected": False, "ncers": ncers,
